@@ -46,6 +46,7 @@ type Result struct {
 	Trace      []string          `json:"trace,omitempty"`
 	Streams    map[string][]uint64 `json:"-"`
 	Leaked     int               `json:"leaked,omitempty"`
+	Hung       bool              `json:"hung,omitempty"`
 }
 
 // Env is handed to a property's Run function (executing as task "0").
@@ -203,8 +204,12 @@ func Exec(t *testing.T, p *Prop, tape *simrt.Tape, tier string, keepTrace bool) 
 		}
 		if p.Liveness {
 			res.Violations = append(res.Violations, Violation{Class: "liveness", FP: kind, Detail: "tasks: " + res.Stuck})
-		} else if res.Infra == "" {
-			res.Infra = kind + " in a non-liveness harness; tasks: " + res.Stuck
+		} else {
+			// termination is decided by the liveness properties (C12, C17); elsewhere a
+			// run that hangs is counted and reported (the runner refuses to answer when
+			// hung runs are more than a small fraction: that would point at the harness)
+			res.Probes["run-hung:"+kind]++
+			res.Hung = true
 		}
 	}
 	if res.Panic != "" {
